@@ -50,6 +50,9 @@ type c18Scenario struct {
 	LateWhat    string `json:"late_what"`    // all: Server, SSL and Pass are set late; ssl: only SSL is flipped late
 	LateConfig  bool   `json:"late_config"`  // Server / SSL / Pass are set through Config() after Client(), before Connect()
 	Backlog     int    `json:"backlog"`      // lines queued behind a server that is not reading when the PINGs arrive
+	// Measure (with Chatty and PingFreq 20 ms): count the client's PINGs over 250 ms of silence and over 250 ms
+	// of server chatter in the same run: chatter must not make them (much) rarer
+	Measure bool `json:"measure,omitempty"`
 	Chatty      bool   `json:"chatty"`       // the server keeps talking while the client's keep-alive PINGs are awaited
 	Lines       []c18Line
 }
@@ -78,6 +81,7 @@ func genC18(t *rapid.T) *c18Scenario {
 		sc.LateWhat = rapid.SampledFrom([]string{"all", "ssl"}).Draw(t, "late_what")
 	}
 	sc.Chatty = rapid.Bool().Draw(t, "chatty")
+	sc.Measure = rapid.IntRange(0, 3).Draw(t, "measure") == 0
 	if rapid.IntRange(0, 3).Draw(t, "backlog") == 0 {
 		sc.Backlog = rapid.SampledFrom([]int{20, 33, 40, 80}).Draw(t, "backlog_n")
 	}
@@ -327,6 +331,16 @@ func runC18(sc *c18Scenario) *Violation {
 		case sc.PingFreqMS == 20:
 			stopChat := make(chan struct{})
 			chatN := 0
+			countPings := func() int {
+				w := conn.Written()
+				return strings.Count(w, "\r\nPING :") + boolInt(strings.HasPrefix(w, "PING :"))
+			}
+			quietPings := -1
+			if sc.Chatty && sc.Measure {
+				p0 := countPings()
+				time.Sleep(250 * time.Millisecond)
+				quietPings = countPings() - p0
+			}
 			if sc.Chatty {
 				// traffic from the server does not replace the client's own keep-alive
 				go func() {
@@ -334,7 +348,7 @@ func runC18(sc *c18Scenario) *Violation {
 						select {
 						case <-stopChat:
 							return
-						case <-time.After(4 * time.Millisecond):
+						case <-time.After(2 * time.Millisecond):
 							// (every other line is a PING of the server's own: answering those is no
 							// substitute for the client's keep-alive either)
 							if chatN++; chatN%2 == 0 {
@@ -352,6 +366,15 @@ func runC18(sc *c18Scenario) *Violation {
 			}, 30*time.Second)
 			if !ok {
 				return violationf("C18", "PingFreq=20ms: fewer than 3 client PINGs in 30 s")
+			}
+			if quietPings >= 6 {
+				// same machine, same load, same length of time: what the server says in between must not
+				// thin out the client's keep-alive (a factor of three is left for scheduling noise)
+				p0 := countPings()
+				time.Sleep(250 * time.Millisecond)
+				if chatPings := countPings() - p0; chatPings*3 < quietPings {
+					return violationf("C18", "PingFreq=20ms: %d client PINGs in 250 ms of silence but only %d in 250 ms while the server was talking (PINGs and NOTICEs every few ms): the keep-alive must be sent periodically whatever else arrives", quietPings, chatPings)
+				}
 			}
 		default:
 			// PingFreq <= 0 or 3 minutes: no client PING may appear during this short session
